@@ -191,7 +191,7 @@ def pW : Params := ⟨2, 3, 5⟩
 
 /-- add_job(jA) completely (17 lines incl. start()), add_job(jB) up to and including the append (4 lines);
 then the monitor polls: the scan finds jB's key without a timestamp. -/
-def schedKeyError : List Ev := rep 13 S ++ rep 4 S ++ [.tick 100] ++ rep 15 M
+def schedKeyError : List Ev := rep 13 S ++ rep 4 S ++ [.tick 100] ++ rep 16 M
 
 /-- `C11_monitor_never_fails` is false for the code as found: KeyError in `get_stale_descrs` when the
 monitor reads between `pending[descr].append(job)` and the timestamp write. -/
@@ -201,7 +201,7 @@ theorem refuted_keyerror :
   ⟨run Cfg.current pW (init [jA, jB]) schedKeyError, reachable_run _ _ _ _ _ Reachable.init, by decide⟩
 
 /-- the monitor creates its iterator over one key; add_job(jB) inserts a second key; next() fails -/
-def schedResize : List Ev := rep 13 S ++ rep 7 M ++ rep 5 S ++ rep 8 M
+def schedResize : List Ev := rep 13 S ++ rep 7 M ++ rep 5 S ++ rep 9 M
 
 theorem refuted_dict_resize :
     ∃ s, Reachable Cfg.current pW [jA, jB] s ∧ s.errors = [Err.runtimeError] ∧ s.mon.pc = .dead :=
